@@ -16,7 +16,7 @@ KINDS = [
     {'field_type': 'FIXED', 'field_length': 1},
     {'field_type': 'FIXED', 'field_length': 7},
     {'field_type': 'FIXED', 'field_length': 3, 'field_python_type': 'int'},
-    {'field_type': 'FIXED', 'field_length': 12, 'field_python_type': 'long'},
+    {'field_type': 'LLVAR', 'field_length': 0, 'field_python_type': 'long'},     # variable-length number
     {'field_type': 'FIXED', 'field_length': 6, 'field_python_type': 'datetime', 'field_date_format': '%y%m%d'},
     {'field_type': 'FIXED', 'field_length': 12, 'field_python_type': 'datetime',
      'field_date_format': '%y%m%d%H%M%S'},
@@ -199,6 +199,8 @@ def build_value(bc, kind, param, enc, seed, bit):
         return text(param, salt, safe)
     if kind == 'N':
         return number_value(bc['field_length'], param, salt)
+    if kind == 'VN':          # number in a variable-length field: param = number of digits (or 0 for the value zero)
+        return 0 if param == 0 else int('9' + digits(param - 1, salt)) if param > 1 else 1 + salt % 9
     if kind == 'DEC':
         return decimal_value(bc['field_length'], param)
     if kind == 'D':
@@ -263,6 +265,8 @@ def field_class(bc):
         return 'pds'
     if proc in ('PAN', 'PAN-PREFIX'):
         return 'pan' if proc == 'PAN' else 'panprefix'
+    if pl and t in ('int', 'long'):
+        return 'varnum'
     if pl:
         return 'var'
     if t in ('int', 'long'):
@@ -300,6 +304,8 @@ def single_variants(bc, tier='quick'):
         out = out[:2]
     elif cls == 'num':
         out += [['N', i] for i in range(NUM_VARIANTS)]
+    elif cls == 'varnum':
+        out += [['VN', n] for n in range(0, top + 1)]
     elif cls == 'dec':
         out += [['DEC', i] for i in range(DEC_VARIANTS)]
     elif cls == 'date':
@@ -331,6 +337,8 @@ def boundary_variants(bc):
         return [['T', bc['field_length']], ['TF', bc['field_length']]]
     if cls == 'num':
         return [['N', 0], ['N', 3]]
+    if cls == 'varnum':
+        return [['VN', 0], ['VN', top]]
     if cls == 'dec':
         return [['DEC', 0], ['DEC', 2]]
     if cls == 'date':
@@ -355,6 +363,8 @@ def default_variant(bc, small=True):
         return ['T', bc['field_length']]
     if cls == 'num':
         return ['N', 4]
+    if cls == 'varnum':
+        return ['VN', 9]
     if cls == 'dec':
         return ['DEC', 3]
     if cls == 'date':
